@@ -10,7 +10,7 @@
    the model of parse.go's precedence-climbing parser reads the tokens of any well-formed tree,
    written with the parentheses the operator table requires plus any redundant ones, back as that
    tree -- cited below and composed with the evaluation half (C01_text_to_value).  Character level:
-   C01_text_string_to_value_partial composes the scanner model (Model/Lexer.v lexExpr: unary-minus
+   C01_text_string_to_value composes the scanner model (Model/Lexer.v lexExpr: unary-minus
    classification by lastEmit, number and string scanning, identifiers, every operator) with the
    parser model on the STRING ast/node.go prints for the expression (minimal parentheses, the
    printer's spacing); strings written otherwise (redundant parentheses, other spacing, the
@@ -27,7 +27,7 @@ From Soy Require Import Proofs.SourceTieExpr Proofs.SourceTieQuote Proofs.Source
 From Soy Require Import Model.Bytes Model.Num Model.Values Model.Outcome Model.Ast Model.Interp
   Model.Escape Model.Token Model.ExprParser Model.ExprTrans Spec.Expr Spec.ExprSyntax Generated.Tables
   Proofs.EvalProofs Proofs.EvalFuncProofs Proofs.EvalMainProofs Proofs.ExprParserRules Proofs.ExprParserProofs Proofs.EvalSyntaxProofs Proofs.EvalTotalProofs.
-From Soy Require Import Model.AstPrint Model.Lexer Model.Parser Proofs.LexPrintMain Proofs.LexParseText Proofs.EvalTextProofs.
+From Soy Require Import Model.AstPrint Model.Lexer Model.Parser Proofs.LexPrintMain Proofs.LexParseText Proofs.EvalTextProofs Proofs.InterpPos.
 Open Scope N_scope.
 
 (* ---- the evaluator ---- *)
@@ -116,22 +116,29 @@ Print Assumptions C01_text_to_value.
    well-formed ([lex_ok]: ASCII names that are not keywords, string literals in the printer's quoted form,
    float texts of the printed shape), the string [txt] that ast/node.go's String() writes for it is scanned
    (lexExpr model, unicode tables of the toolchain) and parsed (parse.Expr model under its own budget) to a
-   tree e' that IS to_node [] e once node positions are erased; SetNodeGlobals turns to_node [] e into
-   to_node G e and the walker evaluates that to what the Spec says.
-   PARTIAL in one respect: the walker theorem is stated for the position-free tree to_node G e, not for e'
-   itself.  Expression nodes use their position only to set s.node (the position an error is reported at,
-   Model/Interp.v walk_body); that the walker's VALUE does not depend on it is not proved here -- the
-   correspondence harness renders the parser's own tree. *)
-Theorem C01_text_string_to_value_partial : forall G ij cf e txt fuel st,
+   tree e' that IS to_node [] e once node positions are erased; and the walker, run on SetNodeGlobals of the
+   parser's OWN tree e' (positions and all), returns the Spec's value with the Spec's next identity, or an
+   error when the Spec has no value; in both cases scope, mode, writer are untouched. *)
+Theorem C01_text_string_to_value : forall G ij cf e txt fuel st,
   syntax_ok e -> lex_ok (to_node [] e) -> print_node (to_node [] e) = Some txt ->
   ExprTrans.wf_expr G e = true -> c_ij cf = ij -> (height e <= fuel)%nat ->
-  (exists e' st', parse_expr_string is_letter_tbl is_digit_tbl txt = Ok (POk e' st') /\ strip_pos e' = to_node [] e) /\
-  (forall v n', eval_spec G (flatten (ctx st)) ij e (next_id st) = Ok (v, n') ->
-     exists st2, walk cf fuel (set_globals G (to_node [] e)) st = (Ok v, st2) /\ frame_eq st st2 /\ next_id st2 = n') /\
-  (forall m, eval_spec G (flatten (ctx st)) ij e (next_id st) = Err m ->
-     exists msg st2, walk cf fuel (set_globals G (to_node [] e)) st = (Err msg, st2) /\ frame_eq st st2).
-Proof. exact text_string_to_value. Qed.
-Print Assumptions C01_text_string_to_value_partial.
+  exists e' st', parse_expr_string is_letter_tbl is_digit_tbl txt = Ok (POk e' st') /\ strip_pos e' = to_node [] e /\
+    (forall v n', eval_spec G (flatten (ctx st)) ij e (next_id st) = Ok (v, n') ->
+       exists st2, walk cf fuel (set_globals G e') st = (Ok v, st2) /\ frame_eq st st2 /\ next_id st2 = n') /\
+    (forall m, eval_spec G (flatten (ctx st)) ij e (next_id st) = Err m ->
+       exists msg st2, walk cf fuel (set_globals G e') st = (Err msg, st2) /\ frame_eq st st2).
+Proof. exact text_string_to_value_full. Qed.
+Print Assumptions C01_text_string_to_value.
+
+(* what makes the step from the position-free tree to the parser's tree possible: on an expression tree the
+   walker uses node positions for s.node only -- erasing them changes neither the outcome nor any field of the
+   final state other than [cur] (the position an error would be reported at); and on EVERY node the walker
+   takes states that differ in [cur] alone to the same outcome and to states that differ in [cur] alone *)
+Theorem C01_walker_ignores_positions : forall cf fuel n st, InterpPos.expr_tree n = true ->
+  fst (walk cf fuel n st) = fst (walk cf fuel (strip_pos n) st) /\
+  InterpPos.eqc (snd (walk cf fuel n st)) (snd (walk cf fuel (strip_pos n) st)).
+Proof. exact InterpPos.walk_strip_run. Qed.
+Print Assumptions C01_walker_ignores_positions.
 
 (* ---- printing ---- *)
 
